@@ -3,6 +3,7 @@
    geometry lemmas of DiskGeoProofs.v. *)
 From Coq Require Import ZArith List Bool Lia ZifyBool.
 Require Import PyBase GenDisk DiskFacts Disk ThomsonDos PyFacts DiskDefs DiskGeoProofs DiskWriteProofs DiskReadProofs.
+Require Import DiskFactsLoop DLoopBase DLoopArgs DLoopSlot DLoopInv.
 Import ListNotations.
 Open Scope Z_scope.
 Ltac Zify.zify_post_hook ::= Z.to_euclidean_division_equations.
@@ -14,6 +15,27 @@ Definition start_ok (init : bool) (img : image) : Prop :=
   if init then Forall (fun sd => side_geometry sd = true) img
   else forallb tool_readable img = true.
 Definition srcs_printable (srcs : list (list Z)) : Prop := Forall (fun s => forallb printable_char s = true) srcs.
+
+
+(* ---------- from the invariant of Proofs/DLoopInv.v to the statements ---------- *)
+Lemma start_image_readable init img : start_ok init img ->
+  length img = 4%nat /\ forallb tool_readable (start_image init img) = true.
+Proof.
+  intros [Hl H]. split; [exact Hl|]. unfold start_image. destruct init; [|exact H].
+  apply forallb_forall. intros sd Hsd. apply in_map_iff in Hsd. destruct Hsd as (sd0 & <- & Hsd0).
+  rewrite Forall_forall in H. apply (init_fs_strict sd0 (H sd0 Hsd0)).
+Qed.
+
+Lemma perform_main is_fd v init fs arch img srcs :
+  start_ok init img -> sources_ok fs -> srcs_printable srcs ->
+  exists st text,
+    inject_perform is_fd v init fs arch img srcs =
+      mkDOutcome 0 text [WriteFile arch (save_image is_fd (i_img st))] None (i_log st) /\
+    sinv (start_image init img) (somes (map (source_item fs) srcs)) PNone st.
+Proof.
+  intros Hso Hfs Hsrcs. destruct (start_image_readable init img Hso) as [Hl Htr].
+  exact (inject_perform_inv is_fd v init fs arch img srcs (start_image init img) Hl eq_refl Htr Hfs Hsrcs).
+Qed.
 
 (* TOP (C05, C04): whatever the sources - refusals for lack of blocks or of catalogue entries at
    any position, --eos anywhere, more sources than four sides hold - the injector either writes
@@ -27,14 +49,28 @@ Theorem inject_keeps_fs : forall (is_fd v init : bool) (fs : fsmap) (arch : list
     length img' = 4%nat /\ geo_image img' /\ forallb tool_readable img' = true /\
     (forallb names_printable (start_image init img) = true -> forallb names_printable img' = true) /\
     (forallb fsck_strict (start_image init img) = true -> forallb fsck_strict img' = true).
-Admitted.
+Proof.
+  intros is_fd v init fs arch img srcs Hso Hfs Hsrcs.
+  destruct (perform_main is_fd v init fs arch img srcs Hso Hfs Hsrcs) as (st & text & Heq & Hinv).
+  right. exists (i_img st). rewrite Heq. cbn [d_effects d_status].
+  split; [reflexivity|]. split; [reflexivity|].
+  split; [exact (inv_len _ _ _ _ _ _ Hinv)|].
+  split; [exact (tool_readable_geo_image _ (inv_tr _ _ _ _ _ _ Hinv))|].
+  split; [exact (inv_tr _ _ _ _ _ _ Hinv)|].
+  split; [exact (inv_np _ _ _ _ _ _ Hinv)|exact (inv_st _ _ _ _ _ _ Hinv)].
+Qed.
 
 (* TOP: on a well-formed start the injector never crashes: the image is always written *)
 Theorem inject_always_saves : forall (is_fd v init : bool) (fs : fsmap) (arch : list Z) (img : image) (srcs : list (list Z)),
   start_ok init img -> sources_ok fs -> srcs_printable srcs ->
   d_status (inject_perform is_fd v init fs arch img srcs) = 0 /\ d_crash (inject_perform is_fd v init fs arch img srcs) = None /\
   exists c, d_effects (inject_perform is_fd v init fs arch img srcs) = [WriteFile arch c].
-Admitted.
+Proof.
+  intros is_fd v init fs arch img srcs Hso Hfs Hsrcs.
+  destruct (perform_main is_fd v init fs arch img srcs Hso Hfs Hsrcs) as (st & text & Heq & Hinv).
+  rewrite Heq. cbn [d_effects d_status d_crash].
+  split; [reflexivity|]. split; [reflexivity|]. eexists. reflexivity.
+Qed.
 
 (* TOP (C02, C06, C10d, C12): report and image agree, side by side.  On every side the files of
    the final image are an order-preserving interleaving of the files that were there and of the
@@ -51,7 +87,17 @@ Theorem inject_report_matches_image : forall (is_fd v init : bool) (fs : fsmap) 
     dos_files (nth i img' []) = Some merged /\ interleave old new merged /\
     let stored := filter item_stored (files_of_log (Z.of_nat i) (d_log (inject_perform is_fd v init fs arch img srcs))) in
     map dos_view new = map item_dos stored /\ map file_view new = map item_view stored.
-Admitted.
+Proof.
+  intros is_fd v init fs arch img img' srcs Hso Hfs Hsrcs Heff Hgeo Hlen i Hi.
+  destruct (perform_main is_fd v init fs arch img srcs Hso Hfs Hsrcs) as (st & text & Heq & Hinv).
+  rewrite Heq in Heff |- *. cbn [d_effects d_log] in Heff |- *.
+  injection Heff as Hsave.
+  pose proof (save_load is_fd img' Hgeo Hlen) as Hl1.
+  pose proof (save_load is_fd (i_img st) (tool_readable_geo_image _ (inv_tr _ _ _ _ _ _ Hinv))
+                (inv_len _ _ _ _ _ _ Hinv)) as Hl2.
+  rewrite Hsave, Hl1 in Hl2. injection Hl2 as Himg. subst img'.
+  cbv zeta. exact (side_rel_final _ _ _ (inv_rel _ _ _ _ _ _ Hinv i Hi)).
+Qed.
 
 (* TOP (C10): shape of the report: sides in order, every file under the open side, a refused file
    retried on the next side only (never split, never stored twice), dropped once the fourth side
@@ -59,7 +105,11 @@ Admitted.
 Theorem inject_report_shape : forall (is_fd v init : bool) (fs : fsmap) (arch : list Z) (img : image) (srcs : list (list Z)),
   start_ok init img -> sources_ok fs -> srcs_printable srcs ->
   log_wf (-1) (d_log (inject_perform is_fd v init fs arch img srcs)) = true.
-Admitted.
+Proof.
+  intros is_fd v init fs arch img srcs Hso Hfs Hsrcs.
+  destruct (perform_main is_fd v init fs arch img srcs Hso Hfs Hsrcs) as (st & text & Heq & Hinv).
+  rewrite Heq. cbn [d_log]. exact (sinv_log_wf _ _ _ Hinv).
+Qed.
 
 (* TOP (C10a, C20): the files stored, over all sides and in report order, are a subsequence of the
    sources in the order given, each with its own bytes: nothing stored twice, nothing invented *)
@@ -67,7 +117,37 @@ Theorem inject_stores_sources_in_order : forall (is_fd v init : bool) (fs : fsma
   start_ok init img -> sources_ok fs -> srcs_printable srcs ->
   subseq (somes (map item_core (filter item_stored (all_files_of_log (d_log (inject_perform is_fd v init fs arch img srcs))))))
          (somes (map (source_item fs) srcs)).
-Admitted.
+Proof.
+  intros is_fd v init fs arch img srcs Hso Hfs Hsrcs.
+  destruct (perform_main is_fd v init fs arch img srcs Hso Hfs Hsrcs) as (st & text & Heq & Hinv).
+  rewrite Heq. cbn [d_log]. exact (inv_sub _ _ _ _ _ _ Hinv).
+Qed.
+
+
+(* ---------- create: the blank image ---------- *)
+Lemma load_blank is_fd : load_image is_fd [] = Ok (repeat blank_side 4).
+Proof. destruct is_fd; reflexivity. Qed.
+
+Lemma blank_side_geometry : side_geometry blank_side = true.
+Proof.
+  unfold side_geometry, blank_side. rewrite repeat_length.
+  apply andb_true_intro. split; [reflexivity|].
+  apply forallb_repeat'. unfold blank_sector. rewrite repeat_length.
+  apply andb_true_intro. split; [reflexivity|].
+  unfold bytesb. apply forallb_repeat'. reflexivity.
+Qed.
+
+Lemma nth_map_some {A} (l : list A) (d : A) i : nth i (map Some l) None = if Nat.ltb i (length l) then Some (nth i l d) else None.
+Proof.
+  revert i. induction l as [|x l IH]; intros [|i]; cbn [map nth length]; try reflexivity.
+  rewrite IH. reflexivity.
+Qed.
+Lemma nth_map_opt {A B} (f : A -> option B) (l : list A) (d : A) i : (i < length l)%nat ->
+  nth i (map f l) None = f (nth i l d).
+Proof.
+  revert i. induction l as [|x l IH]; intros [|i] Hi; cbn [map nth length] in *; try lia; [reflexivity|].
+  apply IH. lia.
+Qed.
 
 (* TOP (C02): create, then list/extract: every file reported stored on side i is listed on side i
    and extracted byte for byte *)
@@ -84,4 +164,41 @@ Theorem create_roundtrip : forall (is_fd v v2 : bool) (fs : fsmap) (arch : list 
     forall i : nat, (i < 4)%nat ->
       let stored := filter item_stored (files_of_log (Z.of_nat i) (d_log (disk_create is_fd v fs arch srcs))) in
       map dos_view (nth i files []) = map item_dos stored /\ map file_view (nth i files []) = map item_view stored.
-Admitted.
+Proof.
+  intros is_fd v v2 fs arch srcs raw into Hfs Hsrcs Htgt Heff.
+  unfold disk_create in *. rewrite load_blank in *.
+  assert (Hso : start_ok true (repeat blank_side 4)).
+  { split; [reflexivity|]. apply Forall_forall. intros sd Hsd. apply repeat_spec in Hsd. subst sd.
+    exact blank_side_geometry. }
+  destruct (perform_main is_fd v true fs arch _ srcs Hso Hfs Hsrcs) as (st & text & Heq & Hinv).
+  rewrite Heq in Heff |- *. cbn [d_effects d_log] in Heff |- *. injection Heff as Hraw.
+  pose proof (inv_len _ _ _ _ _ _ Hinv) as Hlen.
+  pose proof (inv_tr _ _ _ _ _ _ Hinv) as Htr.
+  pose proof (save_load is_fd (i_img st) (tool_readable_geo_image _ Htr) Hlen) as Hload.
+  rewrite Hraw in Hload.
+  assert (Hinit : forall sd, In sd (start_image true (repeat blank_side 4)) ->
+                   names_printable sd = true /\ dos_files sd = Some []).
+  { intros sd Hsd. unfold start_image in Hsd. apply in_map_iff in Hsd. destruct Hsd as (sd0 & <- & Hsd0).
+    apply repeat_spec in Hsd0. subst sd0.
+    destruct (init_fs_strict blank_side blank_side_geometry) as (_ & _ & Hn & Hd & _). split; assumption. }
+  assert (Hnp : forallb names_printable (i_img st) = true).
+  { apply (inv_np _ _ _ _ _ _ Hinv). apply forallb_forall. intros sd Hsd. apply (Hinit sd Hsd). }
+  destruct (disk_read_exact is_fd v2 raw (i_img st) into arch Hload Htr Hnp Htgt)
+    as (files & Hmap & Hs & _ & He & Hlg & _ & _ & _ & Hll).
+  assert (Hlf : length files = 4%nat).
+  { rewrite <- Hlen. rewrite <- (map_length Some files), <- Hmap, map_length. reflexivity. }
+  exists files. repeat (split; [assumption|]).
+  intros i Hi. cbv zeta.
+  destruct (side_rel_final _ _ _ (inv_rel _ _ _ _ _ _ Hinv i Hi)) as (old & new & merged & H0 & H1 & Hil & Hv & Hw).
+  assert (Hold : old = []).
+  { destruct (Hinit (nth i (start_image true (repeat blank_side 4)) [])) as [_ Hd].
+    - apply nth_In. unfold start_image. rewrite map_length, repeat_length. exact Hi.
+    - rewrite Hd in H0. now injection H0 as <-. }
+  subst old. apply interleave_nil_left in Hil. subst merged.
+  assert (Hnth : Some (nth i files []) = Some new).
+  { pose proof (nth_map_opt dos_files (i_img st) [] i ltac:(nlia)) as Hn.
+    rewrite Hmap, (nth_map_some files [] i) in Hn.
+    replace (Nat.ltb i (length files)) with true in Hn by (symmetry; apply Nat.ltb_lt; lia).
+    exact (eq_trans Hn H1). }
+  injection Hnth as Hnth. rewrite Hnth. split; assumption.
+Qed.
